@@ -15,6 +15,16 @@
 //   tdn|sa|sb|n              tensordot, run-time int axes        tdc|sa|sb|n   compile-time ct<n> axes
 //   tdx|sa|sb|axa|axb        tensordot, explicit axes (tuple of two run-time lists, possibly negative entries)
 //   trace|s|off|ax1|ax2      non-empty diagonal          trace_empty|s|off|ax1|ax2   diagonal outside the matrix (sum = 0)
+// Optional parameters / argument kinds (audit of never-exercised parameters): the SAME keys with one more list {variant}
+// (the model - and audit/audit_c16.py - ignore the extra list: the mathematical result does not depend on the spelling):
+//   vecdot|sa|sb|kd|v         v 1: float32 operands, dtype float64, keepdims nm::True / nm::False (explicit)   2: dtype None, keepdims a RUN-TIME bool
+//                             v 3: float32 operands, dtype float64, keepdims a run-time bool
+//                             (float32 operands 4000 + c16_lhs / 3900 + c16_rhs: every product is exact in float32, the sums are not -
+//                              the result must have element type double and the exact sums)
+//   trace|s|off|ax1|ax2|v     v 1: float32 source (16777000 - c16_lhs, sums exceed 2^24), dtype float64   2: trace(a)   4: trace(a, off)
+//                             v 3: offset and both axes as compile-time constants (off in -1..1, axes (0,1) (1,0) (1,2) (-1,-2))
+//   tdx|sa|sb|axa|axb|f       f 1: axes as a tuple of two FIXED arrays nmtools_array<int,k>   2: a tuple of two tuples of compile-time constants (menu TDX_CT)
+//   (tensordot with the axes argument omitted is tdc|..|2 above; a tuple of two plain integers - NumPy's axes=(1,0) - does not compile: not instantiated)
 //
 // Operand pairs are ALL pairs of shapes of the tier's shape set - valid and invalid alike.  Where NumPy raises
 // (contraction lengths differ, batch dimensions not broadcastable) the model returns nullopt and judge() demands
@@ -80,6 +90,12 @@ static long diag_len(const L& s, long off, long ax1, long ax2) {   // number of 
     long r0 = off >= 0 ? 0 : -off, c0 = off >= 0 ? off : 0; return std::max(0L, std::min(s[(size_t)ax1] - r0, s[(size_t)ax2] - c0));
 }
 
+// menus of the compile-time-constant argument forms (only these are instantiated)
+constexpr int TRACE_CT_AXES[4][2] = {{0, 1}, {1, 0}, {1, 2}, {-1, -2}};
+struct TdxCt { int k; int a[2]; int b[2]; };
+constexpr TdxCt TDX_CT[] = {{1, {1, 0}, {0, 0}}, {1, {0, 0}, {1, 0}}, {1, {-1, 0}, {0, 0}}, {1, {0, 0}, {-1, 0}}, {2, {0, 1}, {1, 0}}, {2, {1, 2}, {0, 1}}, {2, {-1, -2}, {1, 0}}, {2, {2, 0}, {-2, -1}}};
+constexpr size_t TDX_NCT = sizeof TDX_CT / sizeof TDX_CT[0];
+
 void nmc_enumerate(const nmc::Tier& t, const nmc::Sink& emit) {
 #ifdef C16_MATMUL
     {   // matmulv2: all ordered pairs over S(1..4,3) (quick, 120^2) / S(1..4,4) (thorough, 340^2): every batch-broadcast
@@ -110,6 +126,26 @@ void nmc_enumerate(const nmc::Tier& t, const nmc::Sink& emit) {
             for (long off = -n; off <= n; off++) if (diag_len(s, off, n1, n2) > 0) emit(Case("trace", {s, {off}, {a1}, {a2}}));
         }
     });
+    // optional parameters of vecdot / trace (see the key list at the top): sub-grids of the spaces above
+    pairs_union(t.thorough() ? 3 : 2, 3, 3, t.thorough() ? 3 : 2, [&](const L& a, const L& b) {
+        for (long v = 1; v <= 3; v++) for (long kd = 0; kd <= 1; kd++) emit(Case("vecdot", {a, b, {kd}, {v}}));
+    });
+    nmc::each_shape_range(2, 3, t.thorough() ? 4 : 3, [&](const L& s) {
+        long d = (long)s.size();
+        for (long a1 = 0; a1 < d; a1++) for (long a2 = 0; a2 < d; a2++) {
+            if (a1 == a2) continue;
+            long n = std::max(s[(size_t)a1], s[(size_t)a2]);
+            for (long off = -n; off <= n; off++) if (diag_len(s, off, a1, a2) > 0) {
+                emit(Case("trace", {s, {off}, {a1}, {a2}, {1}}));
+                if (a1 == 0 && a2 == 1) { if (off == 0) emit(Case("trace", {s, {off}, {a1}, {a2}, {2}})); emit(Case("trace", {s, {off}, {a1}, {a2}, {4}})); }
+            }
+        }
+        for (long off = -1; off <= 1; off++) for (int k = 0; k < 4; k++) {
+            long a1 = TRACE_CT_AXES[k][0], a2 = TRACE_CT_AXES[k][1], n1 = a1 < 0 ? a1 + d : a1, n2 = a2 < 0 ? a2 + d : a2;
+            if (n1 >= d || n2 >= d) continue;
+            if (diag_len(s, off, n1, n2) > 0) emit(Case("trace", {s, {off}, {a1}, {a2}, {3}}));
+        }
+    });
     // trace_empty: the offsets of the same range whose diagonal lies outside the matrix (NumPy: empty sum = 0, result
     // not empty).  Kept as a separate op because nmtools has no zero-extent arrays (the intermediate diagonal is one):
     // non-negative axis spelling only, shapes S(2..3,3) and S(4,2) (quick) / S(2..4,3) and S(2..3,4) (thorough) -
@@ -136,6 +172,22 @@ void nmc_enumerate(const nmc::Tier& t, const nmc::Sink& emit) {
             emit(Case("tdx", {a, b, xa, xb})); emit(Case("tdx", {a, b, na, nb}));
             if (t.thorough()) { emit(Case("tdx", {a, b, na, xb})); emit(Case("tdx", {a, b, xa, nb})); }
         }); });
+    });
+    // axes as a tuple of two fixed arrays (f 1: every pairing, non-negative and all-negative spelling) and as a tuple of two tuples of
+    // compile-time constants (f 2: the menu TDX_CT) - quick: all ordered pairs over S(1..3,2) (f 1: two 3-d operands for two shapes only); thorough: over S(1..2,3) u S(1..3,2)
+    pairs_union(t.thorough() ? 2 : 1, t.thorough() ? 3 : 1, 3, 2, [&](const L& a, const L& b) {
+        long da = (long)a.size(), db = (long)b.size(), m = std::min(da, db);
+        // (quick: two 3-d operands only for the shapes (1,2,2) and (2,2,2) - 162 pairings per pair)
+        bool few = !t.thorough() && da == 3 && db == 3 && !((a == L{1, 2, 2} || a == L{2, 2, 2}) && (b == L{1, 2, 2} || b == L{2, 2, 2}));
+        if (!few) for (long k = 1; k <= m; k++) nmc::each_arrangement((int)da, (int)k, [&](const L& xa) { nmc::each_arrangement((int)db, (int)k, [&](const L& xb) {
+            L na(xa), nb(xb); for (auto& v : na) v -= da; for (auto& v : nb) v -= db;
+            emit(Case("tdx", {a, b, xa, xb, {1}})); emit(Case("tdx", {a, b, na, nb, {1}}));
+        }); });
+        for (size_t i = 0; i < TDX_NCT; i++) {
+            L xa, xb; for (int k = 0; k < TDX_CT[i].k; k++) { xa.push_back(TDX_CT[i].a[k]); xb.push_back(TDX_CT[i].b[k]); }
+            bool in = true; for (long v : xa) if (v >= da || v < -da) in = false; for (long v : xb) if (v >= db || v < -db) in = false;
+            if (in) emit(Case("tdx", {a, b, xa, xb, {2}}));
+        }
     });
 #endif
 #ifdef C16_KRON
@@ -180,6 +232,48 @@ template <typename V, typename A> static Outcome both(const V& lazy, const A& ea
     return o;
 }
 
+// element type of a result (through maybe / either): must be exactly T when a dtype is requested
+template <typename T, typename V> constexpr bool elem_is_v() {
+    if constexpr (meta::is_maybe_v<V>) return elem_is_v<T, meta::remove_cvref_t<meta::get_maybe_type_t<V>>>();
+    else if constexpr (meta::is_either_v<V>) return elem_is_v<T, meta::remove_cvref_t<meta::get_either_left_t<V>>>() && elem_is_v<T, meta::remove_cvref_t<meta::get_either_right_t<V>>>();
+    else if constexpr (meta::is_num_v<V>) return std::is_same_v<V, T>;
+    else return std::is_same_v<meta::get_element_type_t<V>, T>;
+}
+template <typename T, typename V, typename A> static Outcome both_typed(const V& lazy, const A& eager, const ROpt& want, bool nontriv) {
+    if (!elem_is_v<T, meta::remove_cvref_t<V>>()) return Outcome::bad("wrong", "view: the element type of the result is not the requested dtype", nontriv);
+    if (!elem_is_v<T, meta::remove_cvref_t<A>>()) return Outcome::bad("wrong", "array: the element type of the result is not the requested dtype", nontriv);
+    return both(lazy, eager, want, nontriv);
+}
+static RArr shifted(RArr r, double scale, double offset) { for (auto& v : r.data) v = scale * v + offset; return r; }
+#ifdef C16_DOT
+template <int O, typename A> static Outcome trace_ct_axes(const A& a, long k, const ROpt& want, bool nt) {
+    switch (k) {
+    case 0: return both(view::trace(a, meta::ct_v<O>, meta::ct_v<0>, meta::ct_v<1>), na::trace(a, meta::ct_v<O>, meta::ct_v<0>, meta::ct_v<1>), want, nt);
+    case 1: return both(view::trace(a, meta::ct_v<O>, meta::ct_v<1>, meta::ct_v<0>), na::trace(a, meta::ct_v<O>, meta::ct_v<1>, meta::ct_v<0>), want, nt);
+    case 2: return both(view::trace(a, meta::ct_v<O>, meta::ct_v<1>, meta::ct_v<2>), na::trace(a, meta::ct_v<O>, meta::ct_v<1>, meta::ct_v<2>), want, nt);
+    case 3: return both(view::trace(a, meta::ct_v<O>, meta::ct_v<-1>, meta::ct_v<-2>), na::trace(a, meta::ct_v<O>, meta::ct_v<-1>, meta::ct_v<-2>), want, nt);
+    }
+    nmc::die("trace: ct axes not instantiated");
+}
+#endif
+#ifdef C16_TENSORDOT
+template <size_t I, typename A, typename B> static Outcome tdx_ct(const A& a, const B& b, const ROpt& want, bool nt) {
+    constexpr TdxCt f = TDX_CT[I];
+    if constexpr (f.k == 1) { auto ax = nmtools_tuple{nmtools_tuple{meta::ct_v<f.a[0]>}, nmtools_tuple{meta::ct_v<f.b[0]>}}; return both(view::tensordot(a, b, ax), na::tensordot(a, b, ax), want, nt); }
+    else { auto ax = nmtools_tuple{nmtools_tuple{meta::ct_v<f.a[0]>, meta::ct_v<f.a[1]>}, nmtools_tuple{meta::ct_v<f.b[0]>, meta::ct_v<f.b[1]>}}; return both(view::tensordot(a, b, ax), na::tensordot(a, b, ax), want, nt); }
+}
+template <typename A, typename B, size_t... I> static Outcome tdx_ct_dispatch(const A& a, const B& b, const L& xa, const L& xb, const ROpt& want, bool nt, std::index_sequence<I...>) {
+    Outcome r; bool done = false;
+    auto one = [&](auto idx) { constexpr size_t J = decltype(idx)::value; if (done) return; constexpr TdxCt f = TDX_CT[J];
+        if ((size_t)f.k != xa.size()) return; for (int k = 0; k < f.k; k++) if (f.a[k] != xa[(size_t)k] || f.b[k] != xb[(size_t)k]) return;
+        r = tdx_ct<J>(a, b, want, nt); done = true; };
+    (one(std::integral_constant<size_t, I>{}), ...);
+    if (!done) nmc::die("tdx: compile-time axes not instantiated");
+    return r;
+}
+template <size_t K> static nmtools_array<int, K> to_fixed(const L& v) { nmtools_array<int, K> r{}; for (size_t i = 0; i < K; i++) r[i] = (int)v[i]; return r; }
+#endif
+
 Outcome nmc_execute(const Case& c) {
     const std::string& op = c.op; bool nt = false;
     ROpt want = model_of(c, nt);
@@ -188,6 +282,20 @@ Outcome nmc_execute(const Case& c) {
 #ifdef C16_DOT
     if (op == "trace" || op == "trace_empty") {
         auto a = make_arr<long>(ref::c16_lhs(c.a[0])); int off = (int)c.a[1][0], a1 = (int)c.a[2][0], a2 = (int)c.a[3][0];
+        long var = c.a.size() > 4 ? c.a[4][0] : 0;
+        if (var == 1) {   // dtype float64 over a float32 source whose diagonal sums are not representable in float32
+            RArr fr = shifted(ref::c16_lhs(c.a[0]), -1, 16777000); auto fa = make_arr<float>(fr);
+            ROpt fw = ref::trace(fr, off, a1, a2);
+            return both_typed<double>(view::trace(fa, off, a1, a2, nm::float64), na::trace(fa, off, a1, a2, nm::float64), fw, nt);
+        }
+        if (var == 2) { if (off != 0 || a1 != 0 || a2 != 1) nmc::die("trace(a): key must carry the defaults"); return both(view::trace(a), na::trace(a), want, nt); }
+        if (var == 4) { if (a1 != 0 || a2 != 1) nmc::die("trace(a, off): key must carry the default axes"); return both(view::trace(a, off), na::trace(a, off), want, nt); }
+        if (var == 3) {
+            long k = -1; for (int i = 0; i < 4; i++) if (TRACE_CT_AXES[i][0] == a1 && TRACE_CT_AXES[i][1] == a2) k = i;
+            switch (off) { case -1: return trace_ct_axes<-1>(a, k, want, nt); case 0: return trace_ct_axes<0>(a, k, want, nt); case 1: return trace_ct_axes<1>(a, k, want, nt); }
+            nmc::die("trace: ct offset not instantiated");
+        }
+        if (var != 0) nmc::die("trace: unknown variant");
         return both(view::trace(a, off, a1, a2), na::trace(a, off, a1, a2), want, nt);
     }
 #endif
@@ -203,6 +311,19 @@ Outcome nmc_execute(const Case& c) {
     if (op == "dot") return both(view::dot(a, b), na::dot(a, b), want, nt);
     if (op == "inner") return both(view::inner(a, b), na::inner(a, b), want, nt);
     if (op == "outer") return both(view::outer(a, b), na::outer(a, b), want, nt);
+    if (op == "vecdot" && c.a.size() > 3) {
+        long var = c.a[3][0]; bool kd = c.a[2][0] != 0;
+        if (var == 2) return both(view::vecdot(a, b, nm::None, kd), na::vecdot(a, b, nm::None, kd), want, nt);
+        RArr fl = shifted(ref::c16_lhs(sa), 1, 4000), fr = shifted(ref::c16_rhs(sb), 1, 3900);
+        auto fa = make_arr<float>(fl); auto fb = make_arr<float>(fr);
+        ROpt fw = ref::vecdot(fl, fr, kd);
+        if (var == 1) {
+            if (kd) return both_typed<double>(view::vecdot(fa, fb, nm::float64, nm::True), na::vecdot(fa, fb, nm::float64, nm::True), fw, nt);
+            return both_typed<double>(view::vecdot(fa, fb, nm::float64, nm::False), na::vecdot(fa, fb, nm::float64, nm::False), fw, nt);
+        }
+        if (var == 3) return both_typed<double>(view::vecdot(fa, fb, nm::float64, kd), na::vecdot(fa, fb, nm::float64, kd), fw, nt);
+        nmc::die("vecdot: unknown variant");
+    }
     if (op == "vecdot") {
         if (c.a[2][0]) return both(view::vecdot(a, b, nm::None, nm::True), na::vecdot(a, b, nm::None, nm::True), want, nt);
         return both(view::vecdot(a, b), na::vecdot(a, b), want, nt);
@@ -218,6 +339,17 @@ Outcome nmc_execute(const Case& c) {
         case 4: return both(view::tensordot(a, b, meta::ct_v<4>), na::tensordot(a, b, meta::ct_v<4>), want, nt);
         default: nmc::die("tdc: n not instantiated");
         }
+    }
+    if (op == "tdx" && c.a.size() > 4) {
+        const L& xa = c.a[2]; const L& xb = c.a[3];
+        if (c.a[4][0] == 2) return tdx_ct_dispatch(a, b, xa, xb, want, nt, std::make_index_sequence<TDX_NCT>{});
+        if (c.a[4][0] != 1 || xa.size() != xb.size()) nmc::die("tdx: unknown form");
+        switch (xa.size()) {
+        case 1: { auto ax = nmtools_tuple{to_fixed<1>(xa), to_fixed<1>(xb)}; return both(view::tensordot(a, b, ax), na::tensordot(a, b, ax), want, nt); }
+        case 2: { auto ax = nmtools_tuple{to_fixed<2>(xa), to_fixed<2>(xb)}; return both(view::tensordot(a, b, ax), na::tensordot(a, b, ax), want, nt); }
+        case 3: { auto ax = nmtools_tuple{to_fixed<3>(xa), to_fixed<3>(xb)}; return both(view::tensordot(a, b, ax), na::tensordot(a, b, ax), want, nt); }
+        }
+        nmc::die("tdx: fixed-array length not instantiated");
     }
     if (op == "tdx") { auto ax = nmtools_tuple{to_il(c.a[2]), to_il(c.a[3])}; return both(view::tensordot(a, b, ax), na::tensordot(a, b, ax), want, nt); }
 #endif
